@@ -7,6 +7,8 @@
   from a fresh chain satisfies it, so each `(h : Inv s)` below reads "in every reachable state".
 -/
 import DymVerif.Lemmas.LockupFate
+import DymVerif.Gen.Lockup
+import DymVerif.Lemmas.GenEqLockup
 namespace DymVerif.C14
 open DymVerif DymVerif.Lockup
 
@@ -40,6 +42,12 @@ theorem endBlock_never_panics (p : Params) {s : State} (h : Inv s) : (step p s .
   · have : s.height < minHeightAutoWithdraw := by omega
     unfold endBlock
     simp only [this, if_true]
+
+/-- the height from which the model's EndBlocker withdraws is the constant of the current source
+    (`MinBlockHeightToBeginAutoWithdrawing`, regenerated on every run) -/
+theorem auto_withdraw_height_is_source_constant :
+    minHeightAutoWithdraw = Gen.Lockup.minBlockHeightToBeginAutoWithdrawing :=
+  GenEq.Lockup.minHeight_eq.symm
 
 /-! ## nobody but the owner -/
 
